@@ -962,6 +962,10 @@ def get_attr(self, st, base, attr, node, default=KeyError):
         if attr == "__init__":
             return [(st, "val", Builtin("noop"))]
         return [(st, "val", BoundMeth(base.self_val, None, "super." + attr))]
+    if hasattr(base, "abs_getattr"):
+        r = base.abs_getattr(self, st, attr)
+        if r is not KeyError:
+            return [(st, "val", r)]
     if isinstance(base, (str, tuple, frozenset, int, float, bytes)) or hasattr(base, "abs_call"):
         return [(st, "val", BoundMeth(base, None, attr))]
     if isinstance(base, BoundMeth) or isinstance(base, FuncVal):
